@@ -28,6 +28,11 @@ theorem pin_callbacks_promoted :
            "OnChanOpenInit", "OnChanOpenTry", "OnChanOpenAck", "OnChanOpenConfirm", "OnChanCloseInit", "OnChanCloseConfirm"],
       m ∈ Gen.middlewareMethods ∧ m ∉ Gen.middlewareOwnMethods := by decide
 
+/-- Coverage obligation: behind the `transfer` port the application wires blockibc around the orbiter middleware around the
+ICS-20 module and nothing else — the composition `stackOnRecv` (`Recv.lean`) is written for, and the one the comparison
+"with and without the middleware" (`bareOnRecv`) removes exactly one layer of. -/
+theorem pin_ibc_stack : Gen.ibcStack = ["blockibc.IBCMiddleware", "entrypoint.IBCMiddleware", "transfer.IBCModule"] := by decide
+
 def orbiterAddressed (cfg : Cfg) (pkt : Packet) : Prop :=
   ∃ d, decFTPD pkt.data = some d ∧ accAddressFromBech32 cfg.hrp d.receiver = some cfg.orbAddr
 
